@@ -14,6 +14,8 @@ package props
 //   env VERIF_REPLAY_JSON     JSON case descriptor to replay (non-rapid checks)
 
 import (
+	"crypto/sha256"
+	"encoding/binary"
 	tmproto "github.com/tendermint/tendermint/proto/tendermint/types"
 	ethcrypto "github.com/ethereum/go-ethereum/crypto"
 	"github.com/ethereum/go-ethereum/crypto/ecies"
@@ -362,3 +364,32 @@ func mustECIES(compressed []byte) *ecies.PublicKey {
 }
 
 func headerAt(h int64) tmproto.Header { return tmproto.Header{Height: h} }
+
+// detReader is a deterministic byte stream (SHA-256 in counter mode) used
+// wherever the code under test wants an io.Reader of randomness.
+type detReader struct {
+	seed []byte
+	ctr  uint64
+	buf  []byte
+}
+
+func newDetReader(seed string) *detReader { return &detReader{seed: []byte(seed)} }
+
+func (r *detReader) Read(p []byte) (int, error) {
+	n := 0
+	for n < len(p) {
+		if len(r.buf) == 0 {
+			h := sha256.New()
+			h.Write(r.seed)
+			var c [8]byte
+			binary.BigEndian.PutUint64(c[:], r.ctr)
+			h.Write(c[:])
+			r.ctr++
+			r.buf = h.Sum(nil)
+		}
+		k := copy(p[n:], r.buf)
+		r.buf = r.buf[k:]
+		n += k
+	}
+	return n, nil
+}
